@@ -319,6 +319,16 @@ func (ex *Exec) invoke(fr *Frame, recv *IfaceV, it types.Type, m *types.Func, ar
 		tn := typeTagNames[recv.Tag.val.Int64()]
 		if dt, ok := ex.P.typeByKey[tn]; ok {
 			if fn := ex.P.prog.LookupMethod(dt, m.Pkg(), m.Name()); fn != nil {
+				// A concrete method with neither contract nor body to inline (a library type such as
+				// *tls.Conn) is covered by the interface's contract, exactly as it is when the dynamic
+				// type is not known at the call site: whether the type happens to be known (it depends
+				// on the order of the branches that are merged) must not change the verdict.
+				if ex.P.contractFor(fn) == nil && !ex.canInline(fn, fr) && !isLogPkg(fn) {
+					if ct := ex.ifaceContractFor(it, m); ct != nil {
+						ct.Used = true
+						return ex.applyContract(fr, ct.Key, sig, ct, append([]Val{recv}, args...), st, pc, pos)
+					}
+				}
 				rv := unbox(dt, recv.Data)
 				return ex.callFunc(fr, fn, append([]Val{rv}, args...), nil, st, pc, pos)
 			}
@@ -349,6 +359,20 @@ func (ex *Exec) invoke(fr *Frame, recv *IfaceV, it types.Type, m *types.Func, ar
 		}
 	}
 	return ex.unknownCall(fr, key, sig, args, st, pc, pos)
+}
+
+// ifaceContractFor: the contract of interface method m as seen through interface type it (or through
+// the interface that declares m), nil if there is none.
+func (ex *Exec) ifaceContractFor(it types.Type, m *types.Func) *Contract {
+	if ct, ok := ex.P.cs.ByKey[ifaceMethodKey(it, m)]; ok {
+		return ct
+	}
+	if recvT := m.Type().(*types.Signature).Recv(); recvT != nil {
+		if ct, ok := ex.P.cs.ByKey["("+typeKey(recvT.Type())+")."+m.Name()]; ok {
+			return ct
+		}
+	}
+	return nil
 }
 
 func ifaceMethodKey(it types.Type, m *types.Func) string {
